@@ -774,6 +774,21 @@ func (a *Adv) AuthProbes(perTxn int) int {
 				if a.emit(blk, "v2/foundation/unauthorized-address-change", "reject", nil, nil) {
 					n++
 				}
+				// an update is an update whatever it names: re-announcing the address the subsidy already goes to (which
+				// also replaces the management address), or the current management address, needs the same authorization
+				for _, v := range []struct {
+					name string
+					addr types.Address
+				}{{"names-current-subsidy-address", a.CS.FoundationSubsidyAddress}, {"names-current-management-address", a.CS.FoundationManagementAddress}} {
+					blk := CloneBlock(a.Honest)
+					x := &blk.V2.Transactions[ti]
+					addr := v.addr
+					x.NewFoundationAddress = &addr
+					a.signV2(x, SignOpts{})
+					if a.emit(blk, "v2/foundation/unauthorized-address-change-"+v.name, "reject", nil, nil) {
+						n++
+					}
+				}
 			}
 		}
 	}
